@@ -46,6 +46,17 @@ CHECKS = {
         "space is enumerated completely on every run.",
    note="trusted: the 15-line Kleene model, the harness dump; truth values of relational operators on non-null operands are not asserted (outside the statement)",
    design="4/C04"),
+ "C05": dict(
+   technique="invariant monitor over hooked deep dumps (before/after every expression and every statement, with the syntactic target set) + repeated-evaluation equality + alias scenarios + ASan/UBSan",
+   text="(1) every unary/binary/sampled ternary construct over ~75 pool values held in typed and opaque variables, plus in-place members applied through 15 "
+        "kinds of composite receivers (str(x), (x + null), substr, raw, function result, constructor elements, .at, @k, trim of null ...), is evaluated "
+        "twice between deep dumps of all ~150 variables: only the root variable of a receiver chain may change, no flag may remain, and a pure node "
+        "must give deep-equal results twice. (2) generated programs are executed one top-level statement at a time; each dump may differ from the "
+        "previous one only on the statement's targets, and the statement's unparse text must be the same before and after it ran. (3) alias scenarios: "
+        "13 copy routes (assignment, chain, function result/parameter/return, tab/tup constructors, put/concat/insert, forall copy, null filled by "
+        "concat then read) x in-place mutators x side mutated, for strings, bytes, tables, string tables, nested tables and tuples.",
+   note="trusted: harness dump; random/getsys/getenv, stdin readers and module objects excluded (objects are shared by reference by design)",
+   design="4/C05"),
  "C10": dict(
    technique="model-based runtime monitor (python reference semantics + round-trip relations) over seeded argument lattices + ASan/UBSan",
    text="Every string/bytes/conversion builtin named in the property (and at/put/insert/concat/count on strings and bytes) is called by the real "
